@@ -738,7 +738,10 @@ class FormatChecker:
                                'mechanism': {'part': 'trace', 'kind': 'neg_zero' if negz else 'value', 'node': type(e).__name__,
                                              'op': born[1] if born else type(e).__name__,
                                              'operands_lack_neg_zero': bool(negz and (born is not None or self.operands_lack_neg_zero(e))),
-                                             'neg_zero_born_at': born[1] if born else None}})
+                                             'neg_zero_born_at': born[1] if born else None,
+                                             # F76: the sum of a one-element list is that element, unrounded
+                                             'sum_of_one_element': bool(type(e).__name__ == 'Sum' and isinstance(self.last.get(id(getattr(e, 'arg', None))), list)
+                                                                        and len(self.last[id(e.arg)]) == 1)}})
 
 
 def format_members(ctx, fp, cap=40):
